@@ -199,6 +199,8 @@ def main(argv=None):
     print(f"{prop} {tier} seed={seed}: {status} evaluations={acc.evaluations} distinct={len(acc.keys)} "
           f"known_failures={n_known} unlisted_failures={n_viol} wall={wall:.1f}s")
     if violations:
+        for x in inconclusive[:5]:
+            print(f"  (also inconclusive: {x[:200]} ... {x[-300:]})")
         return 1
     if inconclusive:
         for x in inconclusive[:10]:
